@@ -47,13 +47,22 @@ fn to_emmyrc_json(config: &FlattenConfigObject) -> Value {
         for i in 0..keys.len() {
             let key = keys[i];
             if i == keys.len() - 1 {
-                current[key] = v.clone();
+                // A key can be both a value and a prefix (`a` and `a.b`). The dotted, more
+                // specific key wins whatever the iteration order of the map is: never replace
+                // the object built for the longer keys by the value of the shorter one.
+                if !current.get(key).is_some_and(|old| old.is_object()) {
+                    current[key] = v.clone();
+                }
             } else {
-                current = current
+                let next = current
                     .as_object_mut()
                     .expect("always an object")
                     .entry(key.to_string())
                     .or_insert(Value::Object(Default::default()));
+                if !next.is_object() {
+                    *next = Value::Object(Default::default());
+                }
+                current = next;
             }
         }
     }
